@@ -168,7 +168,7 @@ def run_shard(desc, ctx):
         ctx.mon('probe:color-roundtrip')
         got, _ = parse_colour(retval)
         if got is None or got[:3] != (tok.r, tok.g, tok.b) or abs(got[3] - float(tok.a)) > 1e-7:
-            ctx.violation('probe:color-return', {'probe': 'stylesheet.color.color', 'token': [tok.r, tok.g, tok.b, tok.a]}, {'returned': retval})
+            ctx.anomaly('probe:color-return', {'probe': 'stylesheet.color.color', 'token': [tok.r, tok.g, tok.b, tok.a], 'returned': retval})
 
     pr = probes.Probes().add('emmet.stylesheet.color:color', None, color_return).add('emmet.stylesheet.color:to_hex') \
         .add('emmet.stylesheet:resolve_numeric_value').install()
